@@ -172,3 +172,44 @@ def r4(cx):
             else:
                 cx.ok("Result of `%s` in `%s` is %s" % (c.primary, body.id, fate), c.where())
     cx.floor("Result-returning calls on the commit path", n, 25)
+
+
+@rule("C15", "C15.R5", "the oracle's undo record of a publish survives a key that occurs twice in the batch")
+def r5(cx):
+    """`publish` stamps every key of the batch and remembers, per key, the stamp it displaced so that `rollback` can put
+    the last COMMITTED writer back when the commit fails after publish.  A batch may name a key twice (savepoint history):
+    the second visit replaces the batch's own stamp, and recording THAT as the displaced value erases the undo record --
+    after the failed commit the conflict map has forgotten the committed writer and a stale transaction passes `check`.
+    Decided: every write into the undo map in `publish` is reached only under a test of the replaced stamp against the
+    stamp being published."""
+    f = cx.f
+    from ..core import comparisons
+    b = f.body("CommitOracle::publish")
+    und = None
+    rb = f.body("CommitOracle::rollback")
+    # the undo map = the map field both publish writes and rollback reads, other than the conflict map itself
+    Rr, _ = self_field_sites(f, rb, "may")
+    cand = []
+    for c in b.calls:
+        if c.bb not in b.live or c.primary.split("::")[-1] != "insert" or not c.args:
+            continue
+        o = origin_of_operand(b, c.args[0], through_calls="all")
+        fl = o.field_names()
+        if "recent_writes" in fl:
+            continue
+        cand.append((c, fl))
+    cx.floor("undo-map writes in CommitOracle::publish", len(cand), 1)
+    for c, fl in cand:
+        ok = False
+        for cm in comparisons(b):
+            if cm.condition_to_reach(c.bb) is None:
+                continue
+            sides = [origin_of_operand(b, op, through_calls="all") for op in (cm.lhs, cm.rhs)]
+            old = [s for s in sides if any(x.primary.split("::")[-1] == "insert" and "recent_writes" in origin_of_operand(b, x.args[0], through_calls="all").field_names() for x in s.calls)]
+            new = [s for s in sides if s.params and not s.calls or any(x.startswith("Add") or x.startswith("Sub") for x in s.ops)]
+            if old and new:
+                ok = True
+        cx.check(ok, "publish records a displaced stamp only when it differs from the stamp being published", "undo-overwritten-by-duplicate-key|%s" % "/".join(sorted(fl - {"inner", "0", "data"}))[:40], c.where(),
+                 "CommitOracle::publish records the displaced stamp without testing it against the stamp it is writing: the second occurrence of a key in one batch "
+                 "overwrites the undo record with the batch's own stamp, `rollback` then forgets the last committed writer, and a failed commit lets a stale "
+                 "transaction pass the conflict check (lost update)")
